@@ -23,6 +23,7 @@ type Variant struct {
 	New    string `json:"new"`
 	Expect string `json:"expect"` // substring of the obligation key that must fail
 	Edits  []Edit `json:"edits"`  // alternative to File/Old/New: several edits
+	Patch  string `json:"patch"`  // alternative: a unified diff (relative to the repository root) applied with patch -p1
 	Kind   string `json:"kind"`   // "break" (default): must be reported; "equiv": behaviour-preserving, must stay silent
 }
 
@@ -73,13 +74,17 @@ func copyTree(src, dst string) error {
 // evidence file.
 func Sensitivity(prop string) map[string]interface{} {
 	file := filepath.Join(core.VerifDir(), "checker", "selftest", prop+".json")
-	b, err := os.ReadFile(file)
-	if err != nil {
-		return map[string]interface{}{"variants": 0, "note": "no curated variants for this property"}
-	}
 	var vs []Variant
-	if err := json.Unmarshal(b, &vs); err != nil {
-		return map[string]interface{}{"variants": 0, "note": "selftest file unreadable: " + err.Error()}
+	if b, err := os.ReadFile(file); err == nil {
+		if err := json.Unmarshal(b, &vs); err != nil {
+			return map[string]interface{}{"variants": 0, "note": "selftest file unreadable: " + err.Error()}
+		}
+	}
+	// independently seeded changes kept under /verif/seeded/<PROP>-*/patch.diff
+	if seeds, _ := filepath.Glob(filepath.Join(core.VerifDir(), "seeded", prop+"-*", "patch.diff")); seeds != nil {
+		for _, sp := range seeds {
+			vs = append(vs, Variant{Name: "seeded " + filepath.Base(filepath.Dir(sp)), Kind: "break", Patch: sp})
+		}
 	}
 	self, _ := os.Executable()
 	res := make([]variantResult, len(vs))
@@ -98,7 +103,7 @@ func Sensitivity(prop string) map[string]interface{} {
 			defer func() { res[i] = r }()
 			src := filepath.Join(core.RepoDir(), "src")
 			edits := v.Edits
-			if len(edits) == 0 {
+			if len(edits) == 0 && v.Patch == "" {
 				edits = []Edit{{v.File, v.Old, v.New}}
 			}
 			contents := map[string]string{}
@@ -134,6 +139,21 @@ func Sensitivity(prop string) map[string]interface{} {
 			}
 			for f, cnt := range contents {
 				os.WriteFile(filepath.Join(tmp, "src", f), []byte(cnt), 0o644)
+			}
+			if v.Patch != "" {
+				pf, err := os.Open(v.Patch)
+				if err != nil {
+					r.Status = "skipped"
+					return
+				}
+				pc := exec.Command("patch", "-s", "-p1", "-d", tmp)
+				pc.Stdin = pf
+				perr := pc.Run()
+				pf.Close()
+				if perr != nil {
+					r.Status = "skipped" // the change no longer applies to today's tree
+					return
+				}
 			}
 			cmd := exec.Command(self, "-prop", prop, "-tier", "quick")
 			cmd.Env = append(os.Environ(), "RS_REPO="+tmp, "RS_VERIF="+filepath.Join(tmp, "verif"))
